@@ -378,6 +378,21 @@ theorem text_range_sugar_only_in_iterators :
   simp [fmtExp, fmtList, fmtIters, fmtIter, iterText, callText, joinWith, wrapLeaf, PExp.isLeaf, IterVar.text, varText, needsEscape,
     natDigits, digitChar]
 
+/-- the sugar needs a LITERAL flag: a `range` call in iterator position whose inclusiveness is a constant or an expression
+(`closed`, `not open`) keeps the call form — written as `0..n` it would lose its last element whenever the flag is true —
+and such an iteration is in the printable fragment -/
+theorem text_range_flag_expression :
+    fmtExp (.scoped "sum" [.single "i"] [.call "range" [.int 0, .var "n", .var "closed"]] (.var "i")) = "sum(i in range(0, n, closed)) { i }"
+    ∧ fmtExp (.scoped "sum" [.single "i"] [.call "range" [.int 1, .var "n", .un .not (.var "open")]] (.var "i"))
+        = "sum(i in range(1, n, not open)) { i }"
+    ∧ coreExp (.scoped "sum" [.single "i"] [.call "range" [.int 0, .var "n", .var "closed"]] (.var "i")) = true := by
+  refine ⟨?_, ?_, ?_⟩
+  · simp [fmtExp, fmtList, fmtIters, fmtIter, iterText, callText, joinWith, IterVar.text, varText, needsEscape, natDigits, digitChar]
+  · simp [fmtExp, fmtList, fmtIters, fmtIter, iterText, callText, joinWith, IterVar.text, varText, needsEscape, natDigits, digitChar,
+      unOpText, wrapLeaf, PExp.isLeaf]
+  · simp [coreExp, coreList, coreIters, coreIter, printableIterVar, nameVar, plainVar, isPlainRun, isLetter, isDigit, extraLetters, isKeyword,
+      isFunctionName, i64Max, Gen.scopedKinds] <;> decide
+
 /-- an index of a compound variable that is no non-negative integer, integral decimal, name fragment or variable is
 written in braces: `x_{1.5}`, `x_{"a"}`; `x_{2}` and the name fragment `_2` stay bare (C11-float-index-printed-bare,
 C11-string-index-printed-bare, repaired in 7352fcb) -/
